@@ -270,6 +270,9 @@ pub enum SteerItem {
     Finder { vertical: bool, index: usize, start: usize },
     /// uniform rectangle
     Rect { r0: usize, c0: usize, h: usize, w: usize, val: bool },
+    /// word-boundary pattern repeated over `lines` consecutive lines: short runs (`pre`, the last one ending at
+    /// `boundary - 1`) followed by a long uniform run of `post` modules starting exactly at `boundary`
+    Boundary { vertical: bool, index: usize, lines: usize, boundary: usize, pre: Vec<usize>, post: usize, first: bool },
 }
 
 fn edge_index(n: usize) -> BoxedStrategy<usize> {
@@ -317,6 +320,9 @@ pub fn steer_item(n: usize) -> BoxedStrategy<SteerItem> {
             .prop_map(|(vertical, index, start, first, runs)| SteerItem::Runs { vertical, index, start, first, runs }),
         1 => (any::<bool>(), edge_index(n), word_pos(n)).prop_map(|(vertical, index, start)| SteerItem::Finder { vertical, index, start }),
         2 => (edge_index(n), word_pos(n), 1usize..6, 1usize..40, any::<bool>()).prop_map(|(r0, c0, h, w, val)| SteerItem::Rect { r0, c0, h, w, val }),
+        3 => (any::<bool>(), 9usize..n.max(10), 1usize..24, prop_oneof![Just(8usize), Just(16), Just(32), Just(64), Just(96), Just(128)], vec(1usize..=8, 1..4),
+              prop_oneof![Just(15usize), Just(16), Just(31), Just(32), Just(33), Just(63), Just(64), Just(65), Just(100)], any::<bool>())
+            .prop_map(|(vertical, index, lines, boundary, pre, post, first)| SteerItem::Boundary { vertical, index, lines, boundary, pre, post, first }),
     ]
     .boxed()
 }
@@ -352,6 +358,26 @@ pub fn steer_constraints(n: usize, items: &[SteerItem]) -> Vec<(usize, usize, bo
                 const PAT: [bool; 15] = [false, false, false, false, true, false, true, true, true, false, true, false, false, false, false];
                 for (k, &v) in PAT.iter().enumerate() {
                     put(*vertical, *index, start + k, v);
+                }
+            }
+            SteerItem::Boundary { vertical, index, lines, boundary, pre, post, first } => {
+                let total: usize = pre.iter().sum();
+                if *boundary >= total {
+                    for l in 0..*lines {
+                        let mut p = boundary - total;
+                        let mut v = *first;
+                        for &r in pre.iter() {
+                            for _ in 0..r {
+                                put(*vertical, index + l, p, v);
+                                p += 1;
+                            }
+                            v = !v;
+                        }
+                        for _ in 0..*post {
+                            put(*vertical, index + l, p, v);
+                            p += 1;
+                        }
+                    }
                 }
             }
             SteerItem::Rect { r0, c0, h, w, val } => {
@@ -451,4 +477,38 @@ pub fn padded_forced() -> BoxedStrategy<(BuildCase, &'static str, Cell)> {
     (any_cell(), any_mask(), any::<bool>(), any::<bool>())
         .prop_flat_map(|(cell, mask, fm, fl)| case_in_cell(cell, Force { mode: fm, level: fl, version: true }, mask).prop_map(move |(c, f)| (c, f, cell)))
         .boxed()
+}
+
+/// Payloads that look like what people put into QR codes - links (lower, UPPER and mixed case schemes and hosts),
+/// mail / phone / geo / Wi-Fi / vCard / key=value text, serial numbers, times and dates - with generated fields.
+/// Content-sniffing heuristics (a fast path for "links", for "numbers with separators", ...) only ever see such inputs.
+pub fn realistic_payload() -> BoxedStrategy<Vec<u8>> {
+    let word = "[a-z]{2,10}";
+    let up = "[A-Z0-9]{2,12}";
+    let num = "[0-9]{1,14}";
+    let s = prop_oneof![
+        (prop_oneof![Just("http://"), Just("https://"), Just("HTTP://"), Just("HTTPS://"), Just("Https://"), Just("ftp://"), Just("WWW.")], word, word, num)
+            .prop_map(|(sch, a, b, n)| format!("{}{}.com/{}/{}", sch, a, b, n)),
+        (prop_oneof![Just("HTTP://"), Just("HTTPS://")], up, up, num).prop_map(|(sch, a, b, n)| format!("{}{}.COM/{}/{}", sch, a, b, n)),
+        (prop_oneof![Just("https://"), Just("HTTPS://")], word, word, num, word).prop_map(|(sch, a, b, n, q)| format!("{}{}.org/{}?id={}&{}=1", sch, a, b, n, q)),
+        (prop_oneof![Just("mailto:"), Just("MAILTO:"), Just("tel:+"), Just("TEL:+"), Just("sms:"), Just("geo:"), Just("GEO:")], num, num).prop_map(|(p, a, b)| format!("{}{},{}", p, a, b)),
+        (word, word).prop_map(|(a, b)| format!("WIFI:S:{};T:WPA;P:{};;", a, b)),
+        (up, up).prop_map(|(a, b)| format!("WIFI:S:{};T:WPA;P:{};;", a, b)),
+        (word, word, num).prop_map(|(a, b, n)| format!("BEGIN:VCARD\nVERSION:3.0\nN:{};{}\nTEL:{}\nEND:VCARD", a, b, n)),
+        (up, up).prop_map(|(a, b)| format!("{}={}", a, b)),
+        (up, num).prop_map(|(a, n)| format!("{} {}", a, n)),
+        (up, num).prop_map(|(a, n)| format!("{}-{}", a, n)),
+        (0u32..24, 0u32..60, 0u32..60).prop_map(|(h, m, s)| format!("{:02}:{:02}:{:02}", h, m, s)),
+        (1990u32..2100, 1u32..13, 1u32..29).prop_map(|(y, m, d)| format!("{}-{:02}-{:02}", y, m, d)),
+        (1990u32..2100, 1u32..13, 1u32..29, 0u32..24, 0u32..60).prop_map(|(y, m, d, h, mi)| format!("{}:{:02}:{:02}:{:02}:{:02}", y, m, d, h, mi)),
+        (num, num).prop_map(|(a, b)| format!("{}.{}", a, b)),
+        (num, num).prop_map(|(a, b)| format!("{}/{}", a, b)),
+        (num, num).prop_map(|(a, b)| format!("{} {}", a, b)),
+        num.prop_map(|n| n),
+        (num, num, num).prop_map(|(a, b, c)| format!("{}{}{}", a, b, c)),
+        (up, up, up).prop_map(|(a, b, c)| format!("{}/{}/{}", a, b, c)),
+        "[a-zA-Z0-9+/]{24,64}",
+        (word, "[0-9a-f]{24,40}").prop_map(|(a, h)| format!("{}/{}", a, h)),
+    ];
+    s.prop_map(|x| x.into_bytes()).boxed()
 }
